@@ -438,6 +438,9 @@ def run(ctx):
                    lines=_dienv.position_complex_lines(shim, ctx.rng("poscx"), ctx.budget(6, 60), ctx.budget(25, 120)),
                    classify=_dienv.classify_poscx)
 
+    ctx.correspond("gdef-class-props", lines=_dienv.gdef_props_lines(ctx.rng("gdefprops"), ctx.budget(400, 6000)),
+                   classify=_dienv.classify_gdef_props)
+
     r = ctx.rng("invisible")
     if ctx.quick:
         di_pick = sorted(set(ends) | set(di_all[::8]))
